@@ -151,6 +151,8 @@ def mat(v, built):
     if isinstance(v, dict):
         if '$ref' in v:
             return built.handles.get(v['$ref'])
+        if '$origin_of' in v:
+            return built.handles[v['$origin_of']].origin_reference
         if '$dt' in v:
             y, mo, d, h, mi, s, us = v['$dt']
             tz = v.get('tz')
